@@ -63,6 +63,127 @@ fn invoke(
     input: proc_macro::TokenStream,
     opts_modifier: impl FnOnce(&mut Opts),
 ) -> proc_macro::TokenStream {
+    #[cfg(audunhalland_entrait_verif)]
+    return verif_hook::recorded(attr, input, |attr, input| {
+        invoke_inner(attr, input, opts_modifier)
+    });
+    #[cfg(not(audunhalland_entrait_verif))]
+    invoke_inner(attr, input, opts_modifier)
+}
+
+/// Verification hook (off unless built with `--cfg audunhalland_entrait_verif`):
+/// records (attr, input, output) token trees of every invocation as one JSON line
+/// appended to the file named by the environment variable `ENTRAIT_VERIF_DUMP`.
+/// Does not alter the expansion.
+#[cfg(audunhalland_entrait_verif)]
+mod verif_hook {
+    use proc_macro::{Delimiter, Spacing, TokenStream, TokenTree};
+    use std::io::Write;
+
+    fn esc(s: &str, out: &mut String) {
+        out.push('"');
+        for c in s.chars() {
+            match c {
+                '"' => out.push_str("\\\""),
+                '\\' => out.push_str("\\\\"),
+                '\n' => out.push_str("\\n"),
+                '\r' => out.push_str("\\r"),
+                '\t' => out.push_str("\\t"),
+                c if (c as u32) < 0x20 => out.push_str(&format!("\\u{:04x}", c as u32)),
+                c => out.push(c),
+            }
+        }
+        out.push('"');
+    }
+
+    fn dump(stream: &TokenStream, out: &mut String) {
+        out.push('[');
+        let mut first = true;
+        for tt in stream.clone() {
+            if !first {
+                out.push(',');
+            }
+            first = false;
+            match tt {
+                TokenTree::Ident(i) => {
+                    out.push_str("[\"I\",");
+                    esc(&i.to_string(), out);
+                    out.push(']');
+                }
+                TokenTree::Punct(p) => {
+                    out.push_str("[\"P\",");
+                    esc(&p.as_char().to_string(), out);
+                    out.push_str(match p.spacing() {
+                        Spacing::Joint => ",1]",
+                        Spacing::Alone => ",0]",
+                    });
+                }
+                TokenTree::Literal(l) => {
+                    out.push_str("[\"L\",");
+                    esc(&l.to_string(), out);
+                    out.push(']');
+                }
+                TokenTree::Group(g) => {
+                    out.push_str("[\"G\",");
+                    esc(
+                        match g.delimiter() {
+                            Delimiter::Parenthesis => "(",
+                            Delimiter::Brace => "{",
+                            Delimiter::Bracket => "[",
+                            Delimiter::None => "",
+                        },
+                        out,
+                    );
+                    out.push(',');
+                    dump(&g.stream(), out);
+                    out.push(']');
+                }
+            }
+        }
+        out.push(']');
+    }
+
+    pub fn recorded(
+        attr: TokenStream,
+        input: TokenStream,
+        f: impl FnOnce(TokenStream, TokenStream) -> TokenStream,
+    ) -> TokenStream {
+        let path = match std::env::var_os("ENTRAIT_VERIF_DUMP") {
+            Some(path) => path,
+            None => return f(attr, input),
+        };
+        let mut line = String::from("{\"attr\":");
+        dump(&attr, &mut line);
+        line.push_str(",\"input\":");
+        dump(&input, &mut line);
+        let result = std::panic::catch_unwind(std::panic::AssertUnwindSafe(|| f(attr, input)));
+        match &result {
+            Ok(output) => {
+                line.push_str(",\"output\":");
+                dump(output, &mut line);
+            }
+            Err(_) => line.push_str(",\"panic\":true"),
+        }
+        line.push_str("}\n");
+        if let Ok(mut file) = std::fs::OpenOptions::new()
+            .create(true)
+            .append(true)
+            .open(path)
+        {
+            let _ = file.write_all(line.as_bytes());
+        }
+        match result {
+            Ok(output) => output,
+            Err(payload) => std::panic::resume_unwind(payload),
+        }
+    }
+}
+
+fn invoke_inner(
+    attr: proc_macro::TokenStream,
+    input: proc_macro::TokenStream,
+    opts_modifier: impl FnOnce(&mut Opts),
+) -> proc_macro::TokenStream {
     let input = syn::parse_macro_input!(input as Input);
 
     let (result, debug) = match input {
